@@ -54,8 +54,7 @@ def world_monitor(ctx, worlds, results, stream="M-c11w"):
         if "plan" not in r or not r.get("order"):
             continue
         extra = undecided_scheduled(w, r)
-        if not extra:
-            continue
+        # every world: the RETURNED Placements are judged (not only the solver's values)
         pl = world_plan(w, r, r["plan"])
         cases.append("(%s, %s)" % (g_instance(w, r, extra=[t for t, _ in extra]), g_plan(pl)))
         info.append((i, pl))
@@ -68,8 +67,9 @@ def world_monitor(ctx, worlds, results, stream="M-c11w"):
         i, pl = info[b]
         ctx.violation("c11w%d" % i, {"stream": stream, "world": worlds[i], "returned_placements": results[i]["plan"],
                                      "with_standing_placements": pl, "fed_to_the_model": results[i].get("seen_order"),
-                                     "what": "a child is placed before the expected finish (planned start + chosen runtime) of a parent that is "
-                                             "SCHEDULED and was not re-decided (C11: predecessors already running or scheduled)"})
+                                     "what": "in the RETURNED placements a child is placed although a co-decided parent is not, or before the "
+                                             "parent's start + chosen runtime (running parent / SCHEDULED parent that was not re-decided: "
+                                             "before its expected finish) (C11)"})
     pts = [(i, tag, vals) for i, tag, vals in common.monitor_points(worlds, results) if undecided_scheduled(worlds[i], results[i])]
     pc = []
     for i, tag, vals in pts:
@@ -86,7 +86,9 @@ def world_monitor(ctx, worlds, results, stream="M-c11w"):
                                                   "parent that is SCHEDULED and has no variables in the model (C11)"})
     except core.ModelEvalError as e:
         ctx.broken.append({"kind": "monitor", "name": stream + "p", "detail": str(e)[-800:]})
-    ctx.cov["input_distribution"]["worlds_with_undecided_scheduled_tasks"] = len(info)
+    ctx.cov["input_distribution"]["returned_plans_judged"] = len(info)
+    ctx.cov["input_distribution"]["worlds_with_undecided_scheduled_tasks"] = sum(
+        1 for i, _ in info if undecided_scheduled(worlds[i], results[i]))
 
 
 def run(ctx):
